@@ -61,7 +61,7 @@ SRV_CTX = b'org_freedesktop_general'
 SRV_ID = b'42'
 SRV_CHALLENGE = b'deadbeef01'
 SRV_COOKIE = b'c0ffeec0ffee'
-LOOP_KEYRING = [[SRV_CTX, [[b'7', b'00ff'], [SRV_ID, SRV_COOKIE]]]]
+LOOP_KEYRING = [[SRV_CTX, [[b'7', b'00ff'], [b'4210022', b'bad0bad0'], [SRV_ID, SRV_COOKIE]]]]   # an earlier id of which the wanted id is a proper prefix
 
 hexl = binascii.hexlify
 
@@ -578,7 +578,7 @@ def evaluate(ctx, cases, res):
 
 # --------------------------------------------------------------------------
 # generation
-KEYRING = [[b'ctx1', [[b'7', b'c0ffee'], [b'9', b'abcd']]], [b'other', [[b'1', b'00']]]]
+KEYRING = [[b'ctx1', [[b'73', b'bad0'], [b'7', b'c0ffee'], [b'9', b'abcd']]], [b'other', [[b'1', b'00']]]]   # id 73 before id 7: the lookup is by exact id, not by prefix
 CH_GOOD = b'DATA ' + hexl(b'ctx1 7 deadbeef')
 CH_NOID = b'DATA ' + hexl(b'ctx1 8 deadbeef')
 CH_NOFILE = b'DATA ' + hexl(b'nofile 7 deadbeef')
